@@ -68,7 +68,10 @@ def parseInput (toks : List String) : Option Input :=
     let v ← (← kv rest "v").toNat?
     let peer ← (← kv rest "peer").toNat?
     let sig ← parseBool (← kv rest "sig")
-    pure (.vote ⟨t, r, b, v, sig⟩ peer)
+    -- optional: a = index of the validator whose address is carried, k = whose key signed (default v)
+    let a ← match kv rest "a" with | some x => x.toNat? | none => some v
+    let k ← match kv rest "k" with | some x => x.toNat? | none => some v
+    pure (.vote ⟨t, r, b, v, sig, a, k⟩ peer)
   | "maj23" :: rest => do
     let t ← parseVType (← kv rest "t")
     let r ← (← kv rest "r").toNat?
